@@ -72,7 +72,12 @@ def p_c09(facts, rep, tier):
         "writeout_start respectively. Restored values are not decided."
     )
     n_fn, n_eff, n_guard = guardfx.run(facts, rep, "C09")
-    guardfx.session_params_const_false(facts, rep)
+    import sessionsem
+
+    _n, decided = sessionsem.run(facts, rep, parts=("params",))
+    if not decided:
+        # the parameters' value could not be evaluated: fall back to the field-level rule
+        guardfx.session_params_const_false(facts, rep)
     import syncorder
 
     ctx = sync_ctx(facts)
